@@ -19,16 +19,23 @@ CONSTANTS Dev, Vals, Names, MaxPos
 TypeOf(v) == SubSeq(v, 1, 1)        \* first character: N s i f b
 
 \* ignore: set of positions (0-based, as strings "0","1") and names
+\* keyword arguments reach the key function as a dictionary in the order the caller wrote them; the key sorts them by name
+NameOrder == <<"a", "b">>
+NameRank(n) == CHOOSE i \in DOMAIN NameOrder : NameOrder[i] = n
+SortKw(kw) == SortSeq(kw, LAMBDA x, y : NameRank(x[1]) < NameRank(y[1]))
 Filt(sig, ign) ==
     [pos |-> SelectSeq([i \in DOMAIN sig.pos |-> <<i - 1, sig.pos[i]>>], LAMBDA x : ToString(x[1]) \notin ign),
-     kw |-> SelectSeq(sig.kw, LAMBDA x : x[1] \notin ign)]
+     kw |-> SortKw(SelectSeq(sig.kw, LAMBDA x : x[1] \notin ign)),
+     written |-> SelectSeq(sig.kw, LAMBDA x : x[1] \notin ign)]
 PosVals(f) == [i \in DOMAIN f.pos |-> f.pos[i][2]]
 
 KeyCode(sig, typed, ign) ==
     LET f == Filt(sig, ign)
         pv == PosVals(f)
         kwflat == FlattenSeq([i \in DOMAIN f.kw |-> <<"n:" \o f.kw[i][1], f.kw[i][2]>>])
-        types == IF typed THEN [i \in DOMAIN pv |-> "T" \o TypeOf(pv[i])] \o [i \in DOMAIN f.kw |-> "T" \o TypeOf(f.kw[i][2])]
+        \* deviation D_types_in_call_order: the types of the keyword values taken in the order written, not sorted
+        tkw == IF "D_types_in_call_order" \in Dev THEN f.written ELSE f.kw
+        types == IF typed THEN [i \in DOMAIN pv |-> "T" \o TypeOf(pv[i])] \o [i \in DOMAIN tkw |-> "T" \o TypeOf(tkw[i][2])]
                  ELSE <<>>
     IN IF "D_none_separator" \in Dev
        THEN \* released: base + args + (None,) + flattened sorted kwargs items + types
@@ -41,12 +48,19 @@ Same(s1, s2, ign) == Filt(s1, ign).kw = Filt(s2, ign).kw /\ PosVals(Filt(s1, ign
 
 KwSets == {<<>>} \cup {<<<<n, v>>>> : n \in Names, v \in Vals}
           \cup {<<<<"a", v>>, <<"b", w>>>> : v \in Vals, w \in Vals}
+          \cup {<<<<"b", w>>, <<"a", v>>>> : v \in Vals, w \in Vals}      \* the same keywords written in the other order
 Sigs == UNION {[pos : [1..n -> Vals], kw : KwSets] : n \in 0..MaxPos}
 
 NoSharedEntry(typed, ign) == \A s1, s2 \in Sigs : KeyCode(s1, typed, ign) = KeyCode(s2, typed, ign) => Same(s1, s2, ign)
 NoSharedEntryAll == \A typed \in BOOLEAN, ign \in {{}, {"0"}, {"a"}, {"0", "a"}} : NoSharedEntry(typed, ign)
 \* and the key never distinguishes calls that are the same
-SameCallSameKey == \A s1, s2 \in Sigs : Same(s1, s2, {}) => KeyCode(s1, FALSE, {}) = KeyCode(s2, FALSE, {})
+SameCallSameKey == \A typed \in BOOLEAN : \A s1, s2 \in Sigs : Same(s1, s2, {}) => KeyCode(s1, typed, {}) = KeyCode(s2, typed, {})
+
+\* the key starts with the function's name: module + qualified name; two different functions never share
+Fns == {[mod |-> "m", qual |-> "A.f", name |-> "f"], [mod |-> "m", qual |-> "B.f", name |-> "f"],
+        [mod |-> "m", qual |-> "g", name |-> "g"], [mod |-> "n", qual |-> "g", name |-> "g"]}
+Base(fn) == IF "D_short_name" \in Dev THEN <<fn.mod, fn.name>> ELSE <<fn.mod, fn.qual>>
+DistinctFunctionsDistinctNames == \A f1, f2 \in Fns : Base(f1) = Base(f2) => f1 = f2
 
 VARIABLE x
 Init == x = 0
